@@ -12,6 +12,14 @@ import PyrollModel.EvalDriver
     late two|three <look,look,...|-> <given> <read,...>   -> life cycle "dimensioned late": answers of the looks at the bare
                                                              pass (`contour_lines=ok`) ` # ` answers of the reads after the
                                                              assignment ` # cache=a,b`
+    keep two|three <x bits> <y bits> ...                  -> the points followed through the steps of the helper the usable
+                                                             cross-section calls, its parameters bound to the terms the
+                                                             implementation hands over (evaluated in env): per point
+                                                             `<x bits>,<y bits>` where it ends up, or `-` when a clip discards it
+    handed two|three[+hook] <given,given|->               -> what the usable cross-section hands to its helper on a fresh pass:
+                                                             `parameter=<bits>` ...
+    a pass class `two+<hook>` / `three+<hook>` is the class of a plug-in: a subclass with one more implementation of <hook>
+    answering the env variable `plugin.<hook>`
     <formula name> k=<bits> ...                           -> EvalDriver (generated formula table)
 -/
 namespace PassGeomDriver
@@ -23,6 +31,10 @@ structure Cfg where
   threeCls : PassClass
   threeLines : List (List GOp)
   table : List (String × Expr)
+  twoCs : HelperCall := default
+  twoCsHelper : Helper := default
+  threeCs : HelperCall := default
+  threeCsHelper : Helper := default
 
 structure St where
   contour : List (Pt Float) := []
@@ -58,9 +70,23 @@ def showLook (ρ : String → Float) : Res → String
   | .unit => "ok"
   | r => showRes ρ r
 
-def pick (cfg : Cfg) (w : String) : Option (PassClass × List (List GOp)) :=
+def pickBase (cfg : Cfg) (w : String) : Option (PassClass × List (List GOp)) :=
   if w = "two" then some (cfg.twoCls, cfg.twoLines)
   else if w = "three" then some (cfg.threeCls, cfg.threeLines) else none
+
+/-- `two`, `three`, or the class of a plug-in `two+<hook>` / `three+<hook>` -/
+def pick (cfg : Cfg) (w : String) : Option (PassClass × List (List GOp)) :=
+  match w.splitOn "+" with
+  | [b] => pickBase cfg b
+  | [b, hook] => (pickBase cfg b).map fun (c, lines) => (withPlugin c hook (.var ("plugin." ++ hook)), lines)
+  | _ => none
+
+def pickCs (cfg : Cfg) (w : String) : Option (HelperCall × Helper) :=
+  match w.splitOn "+" with
+  | b :: _ =>
+    if b = "two" then some (cfg.twoCs, cfg.twoCsHelper)
+    else if b = "three" then some (cfg.threeCs, cfg.threeCsHelper) else none
+  | [] => none
 
 def handle (cfg : Cfg) (st : St) (line : String) : St × String :=
   match Proto.toks line with
@@ -107,6 +133,23 @@ def handle (cfg : Cfg) (st : St) (line : String) : St × String :=
       (st, (if ls.isEmpty then "-" else " ".intercalate ls) ++ " # " ++ " ".intercalate outs ++ " # cache=" ++
         (if cache = "" then "-" else cache))
     | none => (st, "bad-op")
+  | "keep" :: w :: rest =>
+    match pickCs cfg w, parsePts rest with
+    | some (call, helper), some pts =>
+      let ρ := callEnv (envOf fnan st.env) call
+      (st, " ".intercalate (pts.map fun p => match keepPt ρ helper.ops p with
+        | some q => floatToBitsStr q.x ++ "," ++ floatToBitsStr q.y
+        | none => "-"))
+    | _, _ => (st, "bad-op")
+  | ["handed", w, given] =>
+    match pick cfg w, pickCs cfg w with
+    | some (c, lines), some (call, _) =>
+      let st0 : HState := { dict := names given, cache := [], contour := Option.none }
+      let outs := call.args.map fun a =>
+        let r := run c fuel0 (.body a.2) st0
+        a.1 ++ "=" ++ showRes (finalEnv c lines (envOf fnan st.env) st.contour r.2) r.1
+      (st, if outs.isEmpty then "-" else " ".intercalate outs)
+    | _, _ => (st, "bad-op")
   | _ => (st, EvalDriver.handle cfg.table line)
 
 partial def loop (cfg : Cfg) (h : IO.FS.Stream) (st : St) : IO Unit := do
